@@ -46,6 +46,9 @@ def write(prop, tier, seed, results, violations, known_hits, undecided, wall):
                   dropped_by_extraction=(r.get('dropped') or [])[:12], tu_sha256=r.get('tu_sha256'))
         if r.get('diag'):
             fn['diagnostic'] = r['diag'][:600]
+        if r.get('vacuity'):
+            # per base job (recorded on its first sub-job): call sites of replaced callees that return on some input / source lines reachable
+            fn['vacuity_guards'] = r['vacuity']
         clauses = {}
         for o in r.get('obligations', []):
             if o.get('clause'):
